@@ -10,9 +10,9 @@ Open Scope R_scope.
 Set Default Timeout 120.
 
 (* what propagate(signal, polarization) does, written once *)
-Definition propagate_spec (filt : (R -> R * R) -> bool -> Sig -> Sig) (e r : vec3) (tof : R)
+Definition propagate_spec (filt : (R -> R * R) -> bool -> Sig -> Sig) (e r : vec3) (phi tof : R)
            (signal : Sig) (pol : vec3) (Hs Hp : R -> Cx) : (Sig * Sig) * (vec3 * vec3) :=
-  let u_s0 := vnormalize (vcross e zhat) in
+  let u_s0 := us0 e phi in
   let u_p0 := vnormalize (vcross u_s0 e) in
   let u_p1 := vnormalize (vcross u_s0 r) in
   ((filt Hs true (sig_shift tof (sig_scale (vdot pol u_s0) signal)),
@@ -20,26 +20,26 @@ Definition propagate_spec (filt : (R -> R * R) -> bool -> Sig -> Sig) (e r : vec
 
 Lemma basic_propagate_is_spec filt self signal pol fres freqs atten_vals :
   BasicRayTracePath_propagate_both filt self signal pol fres freqs atten_vals
-  = propagate_spec filt (Path_emitted_direction self) (Path_received_direction self) (Path_tof self) signal pol
+  = propagate_spec filt (Path_emitted_direction self) (Path_received_direction self) (Path_phi self) (Path_tof self) signal pol
       (fun f => cscale (np_interp f freqs atten_vals) (fst fres)) (fun f => cscale (np_interp f freqs atten_vals) (snd fres)).
 Proof. unfold BasicRayTracePath_propagate_both, propagate_spec. destruct fres. reflexivity. Qed.
 
 Lemma uniform_propagate_is_spec filt self signal pol fres att :
   UniformRayTracePath_propagate_both filt self signal pol fres att
-  = propagate_spec filt (UPath_emitted_direction self) (UPath_received_direction self) (UPath_tof self) signal pol
+  = propagate_spec filt (UPath_emitted_direction self) (UPath_received_direction self) (UPath_phi self) (UPath_tof self) signal pol
       (fun f => cscale (att f) (fst fres)) (fun f => cscale (att f) (snd fres)).
 Proof. unfold UniformRayTracePath_propagate_both, propagate_spec. destruct fres. reflexivity. Qed.
 
 Lemma layered_propagate_is_spec filt self signal pol fres att :
   LayeredRayTracePath_propagate_both filt self signal pol fres att
-  = propagate_spec filt (LPath_emitted_direction self) (LPath_received_direction self) (LPath_tof self) signal pol
+  = propagate_spec filt (LPath_emitted_direction self) (LPath_received_direction self) (LPath_phi self) (LPath_tof self) signal pol
       (fun f => cscale (att f) (fst fres)) (fun f => cscale (att f) (snd fres)).
 Proof. unfold LayeredRayTracePath_propagate_both, propagate_spec. destruct fres. reflexivity. Qed.
 
 (* the polarization-basis functions are the same construction *)
 Lemma basic_pol_basis_is self pol :
   BasicRayTracePath_pol_basis self pol
-  = let u_s0 := vnormalize (vcross (Path_emitted_direction self) zhat) in
+  = let u_s0 := us0 (Path_emitted_direction self) (Path_phi self) in
     let u_p0 := vnormalize (vcross u_s0 (Path_emitted_direction self)) in
     let u_p1 := vnormalize (vcross u_s0 (Path_received_direction self)) in
     (u_s0, u_p0, u_p1, vdot pol u_s0, vdot pol u_p0).
@@ -80,8 +80,8 @@ Section WithFilter.
     - intros n Hn. rewrite La in Hn. rewrite nth_lincomb by congruence. apply filter_linear; assumption.
   Qed.
 
-  Variables (e r : vec3) (tof : R) (Hs Hp : R -> Cx).
-  Notation prop := (propagate_spec sig_filter_F e r tof).
+  Variables (e r : vec3) (phi tof : R) (Hs Hp : R -> Cx).
+  Notation prop := (propagate_spec sig_filter_F e r phi tof).
 
   (* output grid = input grid + tof, same length, same number of samples *)
   Lemma propagate_grid signal pol : wf signal ->
@@ -138,15 +138,15 @@ Section WithFilter.
     energy (sg_values os) + energy (sg_values op) <= vdot pol pol * energy (sg_values signal).
   Proof.
     intros W H1 H2. unfold propagate_spec, sig_filter_F, sig_shift, sig_scale; simpl. unfold wf in W.
-    set (ps := vdot pol (vnormalize (vcross e zhat))).
-    set (pp := vdot pol (vnormalize (vcross (vnormalize (vcross e zhat)) e))).
+    set (ps := vdot pol (us0 e phi)).
+    set (pp := vdot pol (vnormalize (vcross (us0 e phi) e))).
     assert (E1 : energy (F (map (fun t => t + tof) (sg_times signal)) (map (Rmult ps) (sg_values signal)) Hs true)
                  <= ps * ps * energy (sg_values signal)).
     { rewrite <- energy_scale. apply filter_passive; [rewrite !map_length; assumption | assumption]. }
     assert (E2 : energy (F (map (fun t => t + tof) (sg_times signal)) (map (Rmult pp) (sg_values signal)) Hp true)
                  <= pp * pp * energy (sg_values signal)).
     { rewrite <- energy_scale. apply filter_passive; [rewrite !map_length; assumption | assumption]. }
-    pose proof (pol_amplitudes_bounded e pol) as B. cbv zeta in B. fold ps pp in B.
+    pose proof (pol_amplitudes_bounded e phi pol) as B. cbv zeta in B. fold ps pp in B.
     pose proof (energy_nonneg (sg_values signal)) as EN. nra.
   Qed.
 End WithFilter.
@@ -210,15 +210,15 @@ Qed.
 Lemma propagate_is_one_construction_stmt : forall filt,
   (forall self signal pol fres freqs atten_vals,
      BasicRayTracePath_propagate_both filt self signal pol fres freqs atten_vals
-     = propagate_spec filt (Path_emitted_direction self) (Path_received_direction self) (Path_tof self) signal pol
+     = propagate_spec filt (Path_emitted_direction self) (Path_received_direction self) (Path_phi self) (Path_tof self) signal pol
          (fun f => cscale (np_interp f freqs atten_vals) (fst fres)) (fun f => cscale (np_interp f freqs atten_vals) (snd fres))) /\
   (forall self signal pol fres att,
      UniformRayTracePath_propagate_both filt self signal pol fres att
-     = propagate_spec filt (UPath_emitted_direction self) (UPath_received_direction self) (UPath_tof self) signal pol
+     = propagate_spec filt (UPath_emitted_direction self) (UPath_received_direction self) (UPath_phi self) (UPath_tof self) signal pol
          (fun f => cscale (att f) (fst fres)) (fun f => cscale (att f) (snd fres))) /\
   (forall self signal pol fres att,
      LayeredRayTracePath_propagate_both filt self signal pol fres att
-     = propagate_spec filt (LPath_emitted_direction self) (LPath_received_direction self) (LPath_tof self) signal pol
+     = propagate_spec filt (LPath_emitted_direction self) (LPath_received_direction self) (LPath_phi self) (LPath_tof self) signal pol
          (fun f => cscale (att f) (fst fres)) (fun f => cscale (att f) (snd fres))).
 Proof.
   intros filt. split; [intros; apply basic_propagate_is_spec|].
@@ -228,8 +228,8 @@ Qed.
 Lemma propagate_grid_stmt :
   forall F : list R -> list R -> (R -> R * R) -> bool -> list R,
   (forall times xs g fr, (length times <= 2 * length xs)%nat -> length (F times xs g fr) = length times) ->
-  forall e r tof Hs Hp signal pol, wf signal ->
-  let '((os, op), _) := propagate_spec (sig_filter_F F) e r tof signal pol Hs Hp in
+  forall e r phi tof Hs Hp signal pol, wf signal ->
+  let '((os, op), _) := propagate_spec (sig_filter_F F) e r phi tof signal pol Hs Hp in
   sg_times os = map (fun t => t + tof) (sg_times signal) /\ sg_times op = map (fun t => t + tof) (sg_times signal) /\
   length (sg_values os) = length (sg_times signal) /\ length (sg_values op) = length (sg_times signal).
 Proof.
@@ -241,40 +241,49 @@ Lemma propagate_linear_stmt :
   (forall times xs g fr, (length times <= 2 * length xs)%nat -> length (F times xs g fr) = length times) ->
   (forall times xs ys a b g fr n, length xs = length ys -> length times = length xs -> (n < length times)%nat ->
      nth n (F times (lincomb a b xs ys) g fr) 0 = a * nth n (F times xs g fr) 0 + b * nth n (F times ys g fr) 0) ->
-  forall e r tof Hs Hp,
+  forall e r phi tof Hs Hp,
   (forall a b x y pol, wf x -> sg_times y = sg_times x -> length (sg_values y) = length (sg_values x) ->
      let sxy := mkSig (sg_times x) (lincomb a b (sg_values x) (sg_values y)) (sg_type x) in
-     let '((os, op), _) := propagate_spec (sig_filter_F F) e r tof sxy pol Hs Hp in
-     let '((xs_, xp_), _) := propagate_spec (sig_filter_F F) e r tof x pol Hs Hp in
-     let '((ys_, yp_), _) := propagate_spec (sig_filter_F F) e r tof y pol Hs Hp in
+     let '((os, op), _) := propagate_spec (sig_filter_F F) e r phi tof sxy pol Hs Hp in
+     let '((xs_, xp_), _) := propagate_spec (sig_filter_F F) e r phi tof x pol Hs Hp in
+     let '((ys_, yp_), _) := propagate_spec (sig_filter_F F) e r phi tof y pol Hs Hp in
      sg_values os = lincomb a b (sg_values xs_) (sg_values ys_) /\ sg_values op = lincomb a b (sg_values xp_) (sg_values yp_)) /\
   (forall a b x p q, wf x ->
-     let '((os, op), _) := propagate_spec (sig_filter_F F) e r tof x (vadd (vscale a p) (vscale b q)) Hs Hp in
-     let '((ps_, pp_), _) := propagate_spec (sig_filter_F F) e r tof x p Hs Hp in
-     let '((qs_, qp_), _) := propagate_spec (sig_filter_F F) e r tof x q Hs Hp in
+     let '((os, op), _) := propagate_spec (sig_filter_F F) e r phi tof x (vadd (vscale a p) (vscale b q)) Hs Hp in
+     let '((ps_, pp_), _) := propagate_spec (sig_filter_F F) e r phi tof x p Hs Hp in
+     let '((qs_, qp_), _) := propagate_spec (sig_filter_F F) e r phi tof x q Hs Hp in
      sg_values os = lincomb a b (sg_values ps_) (sg_values qs_) /\ sg_values op = lincomb a b (sg_values pp_) (sg_values qp_)).
 Proof.
-  intros F H1 H2 e r tof Hs Hp. split.
-  - exact (propagate_linear_signal F H1 H2 e r tof Hs Hp).
-  - exact (propagate_linear_polarization F H1 H2 e r tof Hs Hp).
+  intros F H1 H2 e r phi tof Hs Hp. split.
+  - exact (propagate_linear_signal F H1 H2 e r phi tof Hs Hp).
+  - exact (propagate_linear_polarization F H1 H2 e r phi tof Hs Hp).
 Qed.
 
 Lemma propagate_passive_stmt :
   forall F : list R -> list R -> (R -> R * R) -> bool -> list R,
   (forall times xs g fr, length times = length xs -> (forall u, cabs (g u) <= 1) -> energy (F times xs g fr) <= energy xs) ->
-  forall e r tof Hs Hp signal pol, wf signal ->
+  forall e r phi tof Hs Hp signal pol, wf signal ->
   (forall u, cabs (Hs u) <= 1) -> (forall u, cabs (Hp u) <= 1) ->
-  let '((os, op), _) := propagate_spec (sig_filter_F F) e r tof signal pol Hs Hp in
+  let '((os, op), _) := propagate_spec (sig_filter_F F) e r phi tof signal pol Hs Hp in
   energy (sg_values os) + energy (sg_values op) <= vdot pol pol * energy (sg_values signal).
 Proof.
   intros F H. exact (propagate_passive F H).
 Qed.
 
-Lemma pol_basis_vertical_refuted_stmt : exists e r, vdot e e = 1 /\ vdot r r = 1 /\
+Lemma pol_basis_without_vertical_case_refuted_stmt : exists e r, vdot e e = 1 /\ vdot r r = 1 /\
   let u_s0 := vnormalize (vcross e zhat) in
   let u_p1 := vnormalize (vcross u_s0 r) in
   u_s0 = (0, 0, 0) /\ u_p1 = (0, 0, 0) /\ vdot u_s0 u_s0 <> 1.
 Proof.
   exists zhat, zhat. split; [unfold vdot, zhat, vx, vy, vz; simpl; ring|].
   split; [unfold vdot, zhat, vx, vy, vz; simpl; ring|]. exact (pol_basis_vertical_zero zhat).
+Qed.
+
+Lemma pol_basis_plane_lemma : forall e phi r,
+  (vnorm (vcross e zhat) <> 0 -> vdot (vcross e zhat) r = 0 -> vdot (us0 e phi) r = 0) /\
+  (vnorm (vcross e zhat) = 0 -> vx r * sin phi - vy r * cos phi = 0 -> vdot (us0 e phi) r = 0) /\
+  vdot (us0 e phi) (us0 e phi) = 1 /\ vdot (us0 e phi) e = 0.
+Proof.
+  intros e phi r. split; [apply us0_perp_r_nonvertical|]. split; [apply us0_perp_r_vertical|].
+  split; [apply us0_unit | apply us0_perp_e].
 Qed.
